@@ -84,7 +84,12 @@ impl<'a> SView<'a> {
         let n = run.insts.len();
         let mut tl: Vec<InstTl> = vec![InstTl::default(); n];
         let mut tracked: BTreeMap<u64, usize> = BTreeMap::new();
-        let mut pending_internal: Vec<usize> = vec![];
+        // internal cancellations (handler / unexecuted request dropped by the application) queued and not
+        // yet certainly processed, oldest first. The channel processes one per loop iteration, before
+        // that iteration's transport read; it has certainly emptied the queue only when its last read of
+        // a poll found nothing (the loop ends only when all its sources are idle).
+        let mut pending_internal: std::collections::VecDeque<usize> = Default::default();
+        let mut last_next_idle = false;
         // ids for which the order of an expiry / internal cancellation and a reuse of the id is not
         // determined by the history: every instance with such an id is exempt from per-instance checks
         let mut tainted: std::collections::BTreeSet<u64> = Default::default();
@@ -126,16 +131,19 @@ impl<'a> SView<'a> {
                     if let Some(s) = pstart {
                         consumer_polls.push((s, r.seq, r.t_ns));
                     }
-                    // channel was polled: internal cancellations are processed first, then expirations
-                    for i in pending_internal.drain(..) {
-                        let id = run.insts[i].id;
-                        if tracked.get(&id) == Some(&i) {
-                            tracked.remove(&id);
-                            if tl[i].end.is_none() {
-                                tl[i].end = Some(End::InternalCancel { seq: pstart.unwrap_or(r.seq), t_ns: r.t_ns });
+                    // the poll's last transport read found nothing: every queued internal cancellation has been processed
+                    if last_next_idle || inbound_closed_seq.is_some() {
+                        for i in pending_internal.drain(..) {
+                            let id = run.insts[i].id;
+                            if tracked.get(&id) == Some(&i) {
+                                tracked.remove(&id);
+                                if tl[i].end.is_none() {
+                                    tl[i].end = Some(End::InternalCancel { seq: pstart.unwrap_or(r.seq), t_ns: r.t_ns });
+                                }
                             }
                         }
                     }
+                    last_next_idle = false;
                     let exp: Vec<(u64, usize)> = tracked
                         .iter()
                         .filter(|(id, &i)| {
@@ -152,7 +160,9 @@ impl<'a> SView<'a> {
                         }
                     }
                 }
-                Ev::Io { tr: 1, op: IoOp::Next, res, .. } => match res {
+                Ev::Io { tr: 1, op: IoOp::Next, res, .. } => {
+                    last_next_idle = matches!(res, IoRes::Pending | IoRes::End);
+                    match res {
                     IoRes::Item(Msg::Request { id, body, .. }) => {
                         let i = (*body - SBODY_BASE) as usize;
                         if i < n {
@@ -189,6 +199,11 @@ impl<'a> SView<'a> {
                                 }
                             } else {
                                 tracked.insert(*id, i);
+                                if tainted.contains(id) {
+                                    // an earlier instance with this id had an undetermined fate (and its dropped
+                                    // handler cancels by id): nothing about this one is certain either
+                                    tl[i].ambiguous_dup = true;
+                                }
                             }
                         }
                     }
@@ -202,7 +217,20 @@ impl<'a> SView<'a> {
                     IoRes::End => inbound_closed_seq = Some(r.seq),
                     IoRes::ItemErr => {}
                     _ => {}
-                },
+                    }
+                    // this loop iteration certainly processed the oldest queued internal cancellation (before
+                    // the read; for the bounds of the request just read it stays uncertain, which is the
+                    // conservative side)
+                    if let Some(i) = pending_internal.pop_front() {
+                        let id = run.insts[i].id;
+                        if tracked.get(&id) == Some(&i) {
+                            tracked.remove(&id);
+                            if tl[i].end.is_none() {
+                                tl[i].end = Some(End::InternalCancel { seq: r.seq, t_ns: r.t_ns });
+                            }
+                        }
+                    }
+                }
                 Ev::Io { tr: 1, op: IoOp::Send, sent: Some(Msg::Response { id, result }), res, .. } => {
                     let write_ok = matches!(res, IoRes::Ok);
                     match tracked.remove(id) {
@@ -247,7 +275,7 @@ impl<'a> SView<'a> {
                     if text.starts_with("HandlerTaskDropped") || text.starts_with("HeldDropped") {
                         if let Some(i) = parse_inst(text, "inst=") {
                             tl[i].env_dropped = Some((r.seq, r.t_ns));
-                            pending_internal.push(i);
+                            pending_internal.push_back(i);
                         }
                     }
                 }
